@@ -78,6 +78,86 @@ def gen_memo_case(rng):
     return {"type": "memo", "grid": spec, "ops": ops}
 
 
+def gen_numeric_case(rng):
+    """configurations whose coordinates are not small integers (oracle only; the model's coordinates are exact rationals):
+    uniform / ESRI grids with spacings that are not exact in binary and axis lengths up to 30, rectilinear grids whose axes
+    arrive as float32 arrays on a large coordinate level (metres of a projected CRS, tenths of a degree)"""
+    r = rng.random()
+    if r < 0.25:
+        return {"type": "numeric", "grid": {"kind": "esri", "ncols": rng.randint(1, 30), "nrows": rng.randint(1, 30),
+                                            "cellsize": rng.choice([0.1, 0.2, 0.05, 0.7, 1 / 3]), "xll": rng.choice([0, 0.3, -1.7, 100.1]),
+                                            "yll": rng.choice([0, 0.3, -1.7]), "order": rng.choice("CF")}}
+    d = rng.randint(1, 2)
+    order, rev = rng.choice("CF"), rng.random() < 0.5
+    inc = [rng.random() < 0.6 for _ in range(d)]
+    loc = rng.choice(["cells", "points"])
+    if r < 0.65:
+        return {"type": "numeric", "grid": {"kind": "uniform", "dims": [rng.randint(2, 30) for _ in range(d)],
+                                            "spacing": [rng.choice([0.1, 0.2, 0.05, 0.7, 1 / 3]) for _ in range(d)],
+                                            "origin": [rng.choice([0, 0, 0.3, -1.7, 100.1]) for _ in range(d)],
+                                            "order": order, "rev": rev, "inc": inc, "loc": loc}}
+    base, step = rng.choice([(20000010.0, 30.0), (7.05, 0.1), (5400000.5, 25.0), (0.0, 1.0)])
+    axes = [[float(np.float32(base + (k + a) * step)) for k in range(rng.randint(2, 6))] for a in range(d)]
+    return {"type": "numeric", "grid": {"kind": "rect", "axes": axes, "order": order, "rev": rev, "inc": inc, "loc": loc,
+                                        "dtype": "float32"}}
+
+
+def oracle_numeric(case):
+    """the clauses of `oracle_grid` / `oracle_cast` with tolerances relative to the coordinate level, plus: the axes have
+    the configured lengths and node k of an axis lies at origin + k * spacing"""
+    s = case["grid"]
+    g = gu.build_grid(s)
+    if s["kind"] == "esri":
+        want = [(s["ncols"] + 1, float(s["xll"]), float(s["cellsize"])), (s["nrows"] + 1, float(s["yll"]), float(s["cellsize"]))]
+    elif s["kind"] == "uniform":
+        want = [(n, float(o), float(sp)) for n, o, sp in zip(s["dims"], s["origin"], s["spacing"])]
+    else:
+        want = None
+    axes = [np.asarray(a, dtype=float) for a in g.axes]
+    if want is not None:
+        for k, (n, o, sp) in enumerate(want):
+            if len(axes[k]) != n:
+                return ("an axis has as many nodes as configured (data shape, size and points follow from it)",
+                        {"axis": k, "configured": n, "got": len(axes[k]), "data_shape": [int(x) for x in g.data_shape]})
+            exp = np.sort(o + np.arange(n) * sp)
+            if not np.allclose(np.sort(axes[k]), exp, rtol=1e-12, atol=1e-9):
+                return ("node k of a uniform axis lies at origin + k * spacing", {"axis": k, "got": np.sort(axes[k]).tolist()[:6], "expected": exp.tolist()[:6]})
+    else:
+        for k, a in enumerate(s["axes"]):
+            if not np.array_equal(np.sort(axes[k]), np.sort(np.asarray(a, dtype=float))):
+                return ("the axes of a rectilinear grid are the given node coordinates", {"axis": k, "got": axes[k].tolist(), "given": a})
+    level = max(1.0, float(np.max(np.abs(np.asarray(g.points, dtype=float)))))
+    tol = 1e-12 * level
+    points, cells = np.asarray(g.points, dtype=float), np.asarray(g.cells)
+    cc = np.asarray(g.cell_centers, dtype=float)
+    mean = np.array([points[row].mean(axis=0) for row in cells.tolist()])
+    if mean.shape != cc.shape or not np.allclose(mean, cc, rtol=0, atol=max(tol, 1e-9 * min(level, 1.0))):
+        bad = int(np.argmax(np.abs(mean - cc).sum(axis=1))) if mean.shape == cc.shape else -1
+        return ("cell centre == mean of the cell's nodes",
+                {"cell": bad, "centre": cc[bad].tolist() if bad >= 0 else list(cc.shape),
+                 "mean_of_nodes": mean[bad].tolist() if bad >= 0 else list(mean.shape)})
+    d = g.dim
+    shp = tuple(int(n) for n in g.data_shape)
+    pts = np.asarray(g.data_points, dtype=float)
+    daxes = [np.asarray(a, dtype=float) for a in g.data_axes]
+    if [len(a) for a in daxes] != list(shp) or int(np.prod(shp)) != len(pts) or int(g.data_size) != len(pts):
+        return ("data_axes, data_shape, data_size and data_points agree", {"data_shape": shp, "axes": [len(a) for a in daxes], "points": len(pts)})
+    rev = bool(g.axes_reversed)
+    for idx in np.ndindex(*shp):
+        flat = int(np.ravel_multi_index(idx, shp, order=g.order))
+        coord = [None] * d
+        for k, i in enumerate(idx):
+            coord[d - 1 - k if rev else k] = float(daxes[k][i])
+        if not np.allclose(pts[flat], coord, rtol=0, atol=max(tol, 1e-9 * min(level, 1.0))):
+            return ("coordinate from data_axes at multi-index i == data_points[ravel(i, order)]",
+                    {"index": list(idx), "flat": flat, "from_axes": coord, "data_point": pts[flat].tolist()})
+    u = g.to_unstructured()
+    if np.asarray(u.data_points).shape != pts.shape or not np.allclose(np.asarray(u.data_points, dtype=float), pts, rtol=0, atol=max(tol, 1e-9 * min(level, 1.0))):
+        return ("to_unstructured keeps the data points (same coordinates at the same flat position)",
+                {"max_difference": float(np.max(np.abs(np.asarray(u.data_points, dtype=float) - pts))) if np.asarray(u.data_points).shape == pts.shape else None})
+    return None
+
+
 def index_cases():
     out = []
     for nd in (1, 2, 3, 4):
@@ -296,6 +376,8 @@ def model_request(case):
 
 
 def nontrivial(case):
+    if case["type"] == "numeric":
+        return True
     if case["type"] == "config":
         dims = gu.spec_dims(case["grid"])
         return sum(1 for n in dims if n > 1) >= 1
@@ -309,7 +391,9 @@ def evaluate(case, model, res):
     """correspondence + oracle for one case"""
     t = case["type"]
     try:
-        if t == "config":
+        if t == "numeric":
+            d, o = None, oracle_numeric(case)
+        elif t == "config":
             impl = run_config(case)
             d = compare_config(case, impl, model)
             o = oracle_grid(impl["g"]) or oracle_cast(impl["g"])
@@ -371,8 +455,10 @@ def corpus():
 
 
 def check_cases(cases, res):
-    models = common.lean_batch([model_request(c) for c in cases])
-    for c, m in zip(cases, models):
+    mcases = [c for c in cases if c["type"] != "numeric"]
+    models = iter(common.lean_batch([model_request(c) for c in mcases]))
+    for c in cases:
+        m = None if c["type"] == "numeric" else next(models)
         res.case(c, nontrivial(c))
         count(c, res)
         evaluate(c, m, res)
@@ -400,19 +486,21 @@ def run(ctx, res):
         high = [c for c in configs if len(gu.spec_dims(c["grid"])) == 3]
         sample = low + ctx.rng.sample(high, 2000)
     memo = [gen_memo_case(ctx.rng) for _ in range(ctx.n(1000, 4000))]
-    check_cases(corpus() + index_cases() + sample + memo, res)
+    numeric = [gen_numeric_case(ctx.rng) for _ in range(ctx.n(400, 3000))]
+    check_cases(corpus() + index_cases() + sample + memo + numeric, res)
 
 
 def search(ctx, res, divergences, broken):
     cases = [d["case"] for d in divergences if d.get("case")] + corpus()
     cases += list(all_configs())
     cases += [gen_memo_case(ctx.rng) for _ in range(ctx.n(3000, 20000))]
+    cases += [gen_numeric_case(ctx.rng) for _ in range(ctx.n(1000, 5000))]
     for c in cases:
         if c["type"] == "index":
             continue
         res.case(c, nontrivial(c))
         try:
-            o = oracle_config(c) if c["type"] == "config" else oracle_memo(c)
+            o = oracle_numeric(c) if c["type"] == "numeric" else oracle_config(c) if c["type"] == "config" else oracle_memo(c)
         except Exception as e:  # noqa
             o = ("grid properties can be read for every configuration", {"exception": f"{type(e).__name__}: {e}"[:300]})
         if o:
@@ -454,6 +542,6 @@ def shrink(ctx, f):
 def replay(ctx, rp):
     case = rp.get("input") or (rp.get("diverging_case") or {}).get("case")
     res = common.Result()
-    m = common.lean_batch([model_request(case)])[0]
+    m = None if case["type"] == "numeric" else common.lean_batch([model_request(case)])[0]
     evaluate(case, m, res)
     return {"fails": bool(res.failures), "oracle": res.failures[:1], "divergences": res.divergences[:1]}
